@@ -282,3 +282,58 @@ Proof.
   - intros; apply xleb_total; auto.
   - intros a b c _ _ _; apply xleb_trans.
 Qed.
+
+(* ---- equal_interval: class i  <=>  v in the i-th of k equal-width intervals ---- *)
+Lemma nth_ziota (n : nat) s i : (i < n)%nat -> nth i (ziota s n) 0 = s + Z.of_nat i.
+Proof.
+  revert s i. induction n as [|n IH]; intros s i Hi; [lia|]. destruct i; simpl; [lia|].
+  rewrite IH by lia. lia.
+Qed.
+
+Lemma ei_cuts_nth lo hi (k : nat) i :
+  0 <= i < Z.of_nat k ->
+  nthZ XNaN (ei_cuts lo hi k) i = XFin (Z.of_nat k * lo + (i + 1) * (hi - lo)).
+Proof.
+  intros Hi. unfold ei_cuts.
+  rewrite nthZ_map with (da := 0) by (unfold lenZ; rewrite ziota_length; lia).
+  assert (Hn : nthZ 0 (ziota 0 k) i = i).
+  { unfold nthZ. destruct (i <? 0) eqn:E; [lia|]. rewrite nth_ziota by lia. lia. }
+  rewrite Hn. reflexivity.
+Qed.
+
+Lemma ei_cuts_len lo hi k : lenZ (ei_cuts lo hi k) = Z.of_nat k.
+Proof. unfold ei_cuts. rewrite lenZ_map. unfold lenZ. now rewrite ziota_length. Qed.
+
+Lemma ei_cuts_sorted lo hi k : lo <= hi -> xsorted (ei_cuts lo hi k).
+Proof.
+  intros Hl i j Hi Hij Hj. rewrite ei_cuts_len in Hj.
+  rewrite !ei_cuts_nth by lia. cbn [xleb]. apply Z.leb_le.
+  apply Z.add_le_mono_l. apply Z.mul_le_mono_nonneg_r; lia.
+Qed.
+
+Lemma ei_cuts_ok lo hi k : xall_ok (ei_cuts lo hi k).
+Proof.
+  intros i Hi. rewrite ei_cuts_len in Hi. rewrite ei_cuts_nth by lia. unfold xok; congruence.
+Qed.
+
+Theorem equal_interval_bands lo hi (k : nat) v :
+  lo < hi -> (0 < k)%nat -> lo <= v <= hi ->
+  exists i, class_cell (ei_cuts lo hi k) (XFin (Z.of_nat k * v)) = Some (XFin i) /\
+    0 <= i <= Z.of_nat k - 1 /\
+    Z.of_nat k * v <= Z.of_nat k * lo + (i + 1) * (hi - lo) /\
+    (0 < i -> Z.of_nat k * lo + i * (hi - lo) < Z.of_nat k * v).
+Proof.
+  intros Hlh Hk Hv.
+  destruct (class_cell_spec (ei_cuts lo hi k) (XFin (Z.of_nat k * v))) as (i & Hc & Hfg & Hr).
+  - rewrite ei_cuts_len; lia.
+  - apply ei_cuts_sorted; lia.
+  - apply ei_cuts_ok.
+  - reflexivity.
+  - rewrite ei_cuts_len, ei_cuts_nth by lia. cbn [xleb]. apply Z.leb_le.
+    replace (Z.of_nat k - 1 + 1) with (Z.of_nat k) by lia. nia.
+  - rewrite ei_cuts_len in Hr. exists i. split; [exact Hc|]. split; [lia|].
+    destruct Hfg as (_ & Hle & Hlt). rewrite ei_cuts_nth in Hle by lia. cbn [xleb] in Hle. apply Z.leb_le in Hle.
+    split; [lia|]. intros Hi.
+    specialize (Hlt (i - 1) ltac:(lia)). rewrite ei_cuts_nth in Hlt by lia. cbn [xltb] in Hlt. apply Z.ltb_lt in Hlt.
+    replace (i - 1 + 1) with i in Hlt by lia. lia.
+Qed.
